@@ -29,7 +29,7 @@ P("C01", "proof", kani={"timeout": "600s", "compile_clause": True}, rac=["emit"]
   unbounded="all operands, all 22 operators: spelling -> Combinator -> constructor -> emitted tokens == documented call",
   bounded="operator adjacency / chain length (Kani programs)",
   not_decided="left-to-right composition for chains outside the enumerated family; that parse_until applies the table (C14)")
-P("C02", "proof", kani={"timeout": "600s", "compile_clause": True},
+P("C02", "proof", kani={"timeout": "600s", "compile_clause": True}, rac=["emit"],
   unbounded="the ten wrapper operators; placeholder builder; replace preserves operator and restores all operands",
   bounded="nesting programs (Kani)")
 P("C07", "proof", rac=["spawn_agree"],
@@ -66,7 +66,7 @@ P("C03", "model_checking", kani={"timeout": "1200s"},
 P("C10", "model_checking", kani={"timeout": "600s", "compile_clause": True}, rac=["linear"],
   bounded="every operator with logging callbacks: exact callback trace == documented chain's trace; move-only Tok programs: live()==0 after the result is dropped; block operands inside wrappers evaluated once",
   not_decided="programs outside the enumerated family")
-P("C11", "proof", kani={"timeout": "600s", "compile_clause": True},
+P("C11", "proof", kani={"timeout": "600s", "compile_clause": True}, rac=["emit"],
   unbounded="which operators hoist (is_replaceable), operands exposed and restored in order (inner_exprs / replace_inner_exprs)",
   bounded="placement order of hoisted definitions: exact capture/callback trace for all hoisting operators rotating over positions, n<=3, d<=3, nested wrappers, both operands of fold/try_fold")
 
